@@ -11,6 +11,14 @@ CLAIMS = {
          COMMON + "Assumes header observers are pure (A-pure), time.Time is a mathematical instant (A-time), library models of errors.As/fmt.Errorf/time. Not decided: determinism/purity of the header type's own methods.", "§7 C01"),
  "C02": ("VerifyRange is verified against the C02 statement with an inductive loop invariant (no bound on the range length): result is a prefix of the input, every element passed Verify against its predecessor (history predicate passedVerify defined at Verify's exit), heights increase by one from the first element on, error is nil iff the whole non-empty input is returned, empty input is an error; bounds, frame and termination obligations included.",
          COMMON + "Assumes the C01 contract of Verify (proved by the C01 check), A-pure, library models; the history predicate passedVerify is definitional (assumed at Verify's exit, only used positively).", "§7 C02"),
+ "C03": ("Flow of verified headers under contract: an uninterpreted predicate verified(h) can only be introduced by Verify's exit (history predicate passedVerify + step axiom), by the contract-abiding Getter, or by reading the pending ranges / store (invariant assumed on reads). Every sink carries it as a precondition proved at each call site: syncStore.Append (all headers verified), ranges.Add via setLocalHead, setLocalHead itself. Syncer.verify / incomingNetworkHead return nil only for verified heads (bifurcation included); syncStore.Append is proved to accept only a run contiguous with the head it read and to leave the inner store untouched on errNonAdjacent; processHeaders removes a pending range only after its headers were handed to the store.",
+         COMMON + "Assumes the data-structure invariants of pending ranges and store on reads (trusted accessor contracts ranges.Head/First/Add, syncStore.Head), the Getter contract of interface.go, C01's Verify contract. Not decided: adjacency of two concurrent syncStore.Append calls that read the same stale head; gap-freedom of the Store itself (C04).", "§7 C03"),
+ "C07": ("requestHeaders: for every behaviour of a contract-abiding getter (errors, shorter contiguous prefixes) the loop terminates (variant to-height(fromHead)), never issues a degenerate request, appends only verified contiguous ranges and on nil error the last header handed to the store has height `to` (history ghost appendedTop). processHeaders/doSync: partial correctness of the same postcondition through the pending ranges, a pending range is removed only after its headers were stored, State.Error cleared on success and range fields set. headerRange.rangeAmount/Get/Remove: bounds safety and exact prefix semantics under the range invariant (an off-by-one that made Get/Remove return a stale element or panic was repaired, F15).",
+         COMMON + "Assumes the Getter contract, trusted contracts of ranges.First/Head/Add. Not decided: that the one-slot trigger channel is never lost across goroutines, SyncWait returning, termination of processHeaders while gossip keeps adding ranges.", "§7 C07"),
+ "C10": ("handleRangeRequest / handleHeadRequest / handleRequestByHash / requestHandler against the assumed header.Store contract for arbitrary origin/amount (incl. wrap-around), store tail/head: ErrRangeMixUp and ErrHeadersLimitExceeded before any store access, ghost read counter bounded by min(requested, MaxRangeRequestSize), replies are exactly chainAt(origin..) with a shorter prefix only past the head, head request returns the head, every store call receives a deadline-bounded context, no panic escapes requestHandler. One genuine defect repaired (F4: pruned heights made the server read up to the head).",
+         COMMON + "Assumes the header.Store contract (HasAt iff tail<=h<=head, GetRange returns the chain headers and costs to-from reads; the same text the store checks are meant to prove), head/tail stable during one request, otel/log calls are no-ops, stream I/O havoc.", "§7 C10"),
+ "C15": ("verifyBifurcating under the Getter contract (GetByHeight returns a header of the requested height or a non-VerifyError error): inductive invariant subjHeight<newHeight, diff<=newHeight-subjHeight, subjHead verified; lexicographic variant (newHeight-subjHeight, diff) proves termination for every getter/Verify behaviour; nil result implies the candidate is verified through a chain of successful Verify calls; only verified intermediates reach setLocalHead; a soft-failed candidate is refused only when the promoted subjective head is adjacent to it; Syncer.verify bifurcates only on soft failures (precondition height(new)>height(subj) follows from C01).",
+         COMMON + "Assumes C01's Verify contract and the Getter contract. Not decided: a closed-form bound on the number of getter requests; completeness beyond the refusal-reason clause.", "§7 C15"),
  "C16": ("Tail arithmetic under contract for every parameter set accepted by Validate (Validate's own postcondition is proved) and arbitrary heights/timestamps: no division by zero, no wrap-around, estimateTailHeight/findTailHeight/tailHeight/renewTail results within [1 or oldTail, head], loop termination of the tail scan, store lookups only at heights that cannot block, DeleteRange call preconditions in moveTail. Two genuine defects were repaired (fix: commits, see known_findings.txt), two are recorded as known findings (retention with fast blocks F3; tail above the stored head F14).",
          COMMON + "Assumes the header.Store/Getter interface contracts (heights never decrease, GetByHeight returns the header of that height), entry assumptions of subjectiveTail (store height <= network head, tail only moved under tailMu), A-time. Not decided: the end-to-end store state after doSync (C07) and DeleteRange (C08).", "§7 C16"),
 }
